@@ -332,7 +332,7 @@ pub fn replay(ctx: &Ctx, check: &str, tape: &[u8]) -> Verdict {
     let stats = Stats::new();
     let rec = Rec::new(&stats, false);
     match check {
-        "stripper" => check_stripper(&String::from_utf8_lossy(tape)),
+        "stripper" | "fuzz_preprocess" => check_stripper(&String::from_utf8_lossy(tape)),
         "stripper_random" => random_string_case(tape, &rec),
         "programs" => program_case(ctx, tape, &rec),
         _ => Err(Bad::new(format!("unknown check {check}"))),
@@ -396,6 +396,12 @@ pub fn run(ctx: &Ctx) -> i32 {
     });
     outcome.absorb(&known, fails);
 
+    let fuzz = fuzz_stage(ctx, &stats, &mut outcome, &known, "preprocess", 8, 3_000_000, 256, &[b"a /* b */ c // d\n".to_vec(), "/** é **/ x".as_bytes().to_vec()], &|a| {
+        match std::str::from_utf8(a) {
+            Ok(s) => check_stripper(s).map_err(|b| b.rendered(s.to_string())),
+            Err(_) => Ok(()),
+        }
+    });
     finish(
         ctx,
         &stats,
@@ -407,7 +413,7 @@ pub fn run(ctx: &Ctx) -> i32 {
                 "string literals get no special treatment by the comment lexer (as in Circom's own preprocessor): `//` inside a string starts a comment; the reference does the same".into(),
                 "inside a comment a whitespace byte may be kept instead of blanked".into(),
             ],
-            extra: json!({"exhaustive": true, "exhaustive_scope": format!("stripper strings of length <= {max_len} over a 7-symbol alphabet; programs are sampled"), "exhaustive_distinct_nontrivial": exhaustive_nontrivial}),
+            extra: json!({"exhaustive": true, "exhaustive_scope": format!("stripper strings of length <= {max_len} over a 7-symbol alphabet; programs are sampled"), "exhaustive_distinct_nontrivial": exhaustive_nontrivial, "coverage_guided_stage": fuzz}),
         },
         start,
     )
